@@ -14,7 +14,8 @@ RULE = ("per-run seed -> knobs + a history of 1-6 writer transactions (add/group
         "simulated machine and on a dictionary model; after every commit and restart every read API named in the statement is probed "
         "(reader dump incl. column values, all_stored_fields, iter_docs, Every, sorted, facets, term searches, 4 generated boolean trees); "
         "with two unique fields the second key is independent of the first in half of those runs. A run is non-trivial if it performed >=1 commit and >=1 "
-        "probe of the read APIs; distinct = distinct SHA-256 of the event log.")
+        "probe of the read APIs; distinct = distinct SHA-256 of the event log."
+        ' 40% of runs also check a long-lived searcher refresh()ed after every commit.')
 ASSUMPTIONS = ["analysis (field.index) is trusted: the model derives a document's terms from it",
                "crash model is not exercised here (see C02); faults are cancel / user exception / one-shot EIO or ENOSPC inside the with-block body",
                "delete_document(docnum) is driven through the writer's own reader to find the document number"]
